@@ -845,3 +845,47 @@ M("C13", CM, """        if not (result.startswith("(") and result.endswith(")"))
     def map_polynomial""", """        return result
 
     def map_polynomial""", "revert of fix e2c7aa5 (negative constants in compile)")
+
+CC = "pymbolic/mapper/c_code.py"
+M("C14", SF, """                negatives.append(self.rec(neg_prod, PREC_PRODUCT, *args, **kwargs))""",
+  """                negatives.append(self.rec(neg_prod, PREC_SUM, *args, **kwargs))""",
+  "a + -1*(b+c) rewritten to a - b + c (lost parentheses)", shards=2)
+M("C14", SF, """        negatives = self.join("",
+                [self.format(" - %s", entry) for entry in negatives])""", """        negatives = self.join("",
+                [self.format(" + %s", entry) for entry in negatives])""", "lost sign in a + -1*b -> a - b", shards=2)
+M("C14", CC, """        return self.format("pow(%s, %s)",
+                self.rec(expr.base, PREC_NONE),
+                self.rec(expr.exponent, PREC_NONE))""", """        return self.format("pow(%s, %s)",
+                self.rec(expr.exponent, PREC_NONE),
+                self.rec(expr.base, PREC_NONE))""", "pow(b, a)", shards=2)
+M("C14", CC, """                    i = 2
+                    while True:
+                        yield self.cse_prefix+"_"+expr.prefix + "_%d" % i
+                        i += 1""", """                    i = 2
+                    while True:
+                        yield self.cse_prefix+"_"+expr.prefix + "_%d" % i""", "prefix counter not advanced", shards=2)
+M("C14", CC, """        return self.format("(%s ? %s : %s)",
+                self.rec(expr.condition, PREC_NONE),
+                self.rec(expr.then, PREC_NONE),
+                self.rec(expr.else_, PREC_NONE),
+                )
+
+    # }}}""", """        return self.format("(%s ? %s : %s)",
+                self.rec(expr.condition, PREC_NONE),
+                self.rec(expr.else_, PREC_NONE),
+                self.rec(expr.then, PREC_NONE),
+                )
+
+    # }}}""", "ternary branches swapped", shards=2)
+M("C14", CC, """        self.cse_names = {name for name, cse in cse_name_list}""", """        self.cse_names = {cse for name, cse in cse_name_list}""", "revert of fix 06da0a6 part 1 (names from code strings)", shards=2)
+M("C14", CC, """        result.cse_to_name = {
+                name_to_cse.get(name, cse): name for name, cse in cse_name_list}""", """        pass""", "revert of fix 06da0a6 part 2 (copies re-hoist)", shards=2)
+M("C14", CC, """                    force_parens_around=(p.Quotient, p.Remainder)),""", """                    ),""", "revert of fix d6f4207 (a * b % c)", shards=2)
+M("C14", CC, """                    self.rec(expr.left, PREC_SHIFT),
+                    expr.operator,
+                    self.rec(expr.right, PREC_SHIFT)),""", """                    self.rec(expr.left, PREC_COMPARISON),
+                    expr.operator,
+                    self.rec(expr.right, PREC_COMPARISON)),""", "revert of fix 4ab72dc (C comparison precedence)", shards=2)
+M("C14", CC, """                return self.parenthesize_if_needed(
+                        self.rec(square, PREC_NONE),
+                        enclosing_prec, PREC_PRODUCT - 1)""", """                return self.rec(square, enclosing_prec)""", "revert of fix d9ec33f (square grouping)", shards=2)
